@@ -148,12 +148,22 @@ func oracle(v reflect.Value) error {
 			if d := tlx.Equal(v, reflect.ValueOf(obj)); d != "" {
 				return fmt.Errorf("DecodeUnknownObject returns a different value at %s", d)
 			}
+			ov := reflect.ValueOf(obj)
+			kept.Keep("a value returned by DecodeUnknownObject", func() []byte { return []byte(tlx.Equal(v, ov)) })
 		}
-		return nil
+		// what was handed out stays what it was while the codec works on other values
+		if len(b1) > 1<<20 {
+			return nil
+		}
+		kept.Keep("the bytes returned by Marshal", func() []byte { return b1 })
+		kept.Keep("a value filled by Decode", func() []byte { return []byte(tlx.Equal(v, got)) })
+		return kept.Verify()
 	})
 }
 
 var pool hx.Pool[Case]
+
+var kept hx.Retain
 
 func evaluate(c *Case, src tlx.Src) error {
 	rec := &tlx.Recorder{In: src}
